@@ -44,9 +44,61 @@ type RObs struct {
 	Ok    bool
 	S     int
 	V     []int64
+	Big   *Blob // set instead of V when the specification printed the value compactly
 	P     int
 	Rest  int
 	Depth int
+}
+
+// Blob: a long octet string as CryptoByteGen.tla prints it:
+// ["big", length, first 16, last 16, middle octet (-1 = not uniform)].
+type Blob struct {
+	Len        int
+	Head, Tail []int64
+	Mid        int
+}
+
+// blobOf projects real octets the same way.
+func blobOf(b []int64) Blob {
+	n := len(b)
+	x := Blob{Len: n, Head: b[:16], Tail: b[n-16:], Mid: int(b[16])}
+	for _, v := range b[16 : n-16] {
+		if v != b[16] {
+			x.Mid = -1
+			break
+		}
+	}
+	return x
+}
+
+// parseOctets: plain list of octets or the compact form.
+func parseOctets(raw json.RawMessage) ([]int64, *Blob, error) {
+	var parts []json.RawMessage
+	if err := json.Unmarshal(raw, &parts); err != nil {
+		return nil, nil, err
+	}
+	if len(parts) == 5 && len(parts[0]) > 0 && parts[0][0] == '"' {
+		var b Blob
+		if err := tuple(raw, new(string), &b.Len, &b.Head, &b.Tail, &b.Mid); err != nil {
+			return nil, nil, err
+		}
+		return nil, &b, nil
+	}
+	var v []int64
+	err := json.Unmarshal(raw, &v)
+	return v, nil, err
+}
+
+// sameOctets: real octets against the specification's (plain or compact) value.
+func sameOctets(real []int64, want []int64, big *Blob) bool {
+	if big == nil {
+		return eq(real, want)
+	}
+	if len(real) <= 300 {
+		return false
+	}
+	r := blobOf(real)
+	return r.Len == big.Len && eq(r.Head, big.Head) && eq(r.Tail, big.Tail) && r.Mid == big.Mid
 }
 
 func tuple(b []byte, fields ...any) error {
@@ -67,7 +119,13 @@ func tuple(b []byte, fields ...any) error {
 func (o *WOp) UnmarshalJSON(b []byte) error { return tuple(b, &o.Op, &o.W, &o.Tag, &o.V, &o.S) }
 func (o *ROp) UnmarshalJSON(b []byte) error { return tuple(b, &o.Op, &o.W, &o.Tag, &o.Cls, &o.V, &o.S) }
 func (o *RObs) UnmarshalJSON(b []byte) error {
-	return tuple(b, &o.Ok, &o.S, &o.V, &o.P, &o.Rest, &o.Depth)
+	var v json.RawMessage
+	if err := tuple(b, &o.Ok, &o.S, &v, &o.P, &o.Rest, &o.Depth); err != nil {
+		return err
+	}
+	var err error
+	o.V, o.Big, err = parseOctets(v)
+	return err
 }
 func nz(v []int64) []int64 {
 	if v == nil {
@@ -82,17 +140,20 @@ func (o ROp) MarshalJSON() ([]byte, error) {
 	return json.Marshal([]any{o.Op, o.W, o.Tag, o.Cls, nz(o.V), o.S})
 }
 func (o RObs) MarshalJSON() ([]byte, error) {
+	if o.Big != nil {
+		return json.Marshal([]any{o.Ok, o.S, []any{"big", o.Big.Len, nz(o.Big.Head), nz(o.Big.Tail), o.Big.Mid}, o.P, o.Rest, o.Depth})
+	}
 	return json.Marshal([]any{o.Ok, o.S, nz(o.V), o.P, o.Rest, o.Depth})
 }
 
 type Program struct {
-	W     []WOp   `json:"w"`
-	Err   bool    `json:"err"`
-	Bytes []int64 `json:"bytes"`
-	R1    []ROp   `json:"r1"`
-	O1    []RObs  `json:"o1"`
-	R2    []ROp   `json:"r2"`
-	O2    []RObs  `json:"o2"`
+	W     []WOp           `json:"w"`
+	Err   bool            `json:"err"`
+	Bytes json.RawMessage `json:"bytes"`
+	R1    []ROp           `json:"r1"`
+	O1    []RObs          `json:"o1"`
+	R2    []ROp           `json:"r2"`
+	O2    []RObs          `json:"o2"`
 }
 
 func toBytes(v []int64) []byte {
@@ -537,7 +598,7 @@ func compareReads(style string, r []ROp, want, got []RObs, panicked string) *Dis
 			field = "ok"
 		case !w.Ok:
 			return nil
-		case w.S != g.S || !eq(w.V, g.V):
+		case w.S != g.S || !sameOctets(g.V, w.V, w.Big):
 			field = "value"
 		case w.P != g.P:
 			field = "present"
@@ -565,9 +626,13 @@ func checkProgram(p *Program) *Disagreement {
 	if p.Err {
 		return nil
 	}
-	if !eq(toInts(out), p.Bytes) {
+	wantB, wantBig, err := parseOctets(p.Bytes)
+	if err != nil {
+		obs.Fatal("bytes of the program: %v", err)
+	}
+	if !sameOctets(toInts(out), wantB, wantBig) {
 		return &Disagreement{map[string]any{"stage": "build", "field": "bytes", "kinds": kinds(p.W)},
-			fmt.Sprintf("Builder wrote [% x], specification demands [% x]", out, toBytes(p.Bytes))}
+			fmt.Sprintf("Builder wrote %s, specification demands %s", short(out), p.Bytes)}
 	}
 	g1, pn := runReads(out, p.R1)
 	if d := compareReads("plain", p.R1, p.O1, g1, pn); d != nil {
@@ -577,9 +642,16 @@ func checkProgram(p *Program) *Disagreement {
 	return compareReads("optional", p.R2, p.O2, g2, pn)
 }
 
+func short(b []byte) string {
+	if len(b) <= 64 {
+		return fmt.Sprintf("[% x]", b)
+	}
+	return fmt.Sprintf("[% x ... % x] (%d bytes)", b[:24], b[len(b)-8:], len(b))
+}
+
 func nontrivial(p *Program) bool {
 	// nesting, a long-form ASN.1 length, an optional element, or an error
-	if p.Err || len(p.Bytes) > 130 {
+	if p.Err || len(p.Bytes) > 400 {
 		return true
 	}
 	for _, op := range p.W {
